@@ -1,5 +1,103 @@
-(* placeholder while the correspondence is brought up *)
-From Coq Require Import List.
-From MV Require Import Model.QuicDemux.
-Theorem C30_placeholder : True. Proof. exact I. Qed.
-Print Assumptions C30_placeholder.
+(* Props/C30.v -- QUIC streams are demultiplexed onto correctly paired streams.
+   Subject: the model of RawQuicLayer in Model/QuicDemux.v (the one the correspondence check runs)
+   with the translated stream-id arithmetic of Gen/QuicIds.v.  Every theorem below holds for EVERY
+   stream child (arbitrary state type C, arbitrary step function, arbitrary spawn function) and for
+   EVERY schedule evs of stream data / FIN / reset / stop-sending / connection-close events from both
+   sides, including schedules that end in a failed assertion. *)
+From Coq Require Import NArith List Bool.
+From MV Require Import Base.Bytes Model.QuicIdsPrelude Gen.QuicIds Model.QuicDemux
+  Proofs.QuicIds Proofs.QuicAlloc Proofs.QuicDemuxWrite Proofs.QuicDemuxLocal Proofs.QuicDemuxMain.
+Import ListNotations.
+Open Scope N_scope.
+
+(* (1) Pairing.  In every reachable state client_stream_ids / server_stream_ids are exactly the
+   graphs of layer -> client id / layer -> server id: each layer owns one id per side, no id is
+   owned by two layers, and the two ids of a layer have the same direction and initiator bits. *)
+Theorem C30_pairing :
+  forall (C : Type) (child_step : C -> connst * connst -> cevent -> C * list ccmd) (new_child : nat -> C) evs,
+  let st := run C child_step new_child evs in
+  (forall k L, dict_get k (client_ids st) = Some L <-> exists l, nth_error (layers st) L = Some l /\ cid l = k) /\
+  (forall k L, dict_get k (server_ids st) = Some L <-> exists l, nth_error (layers st) L = Some l /\ sid l = Some k) /\
+  (forall L l s, nth_error (layers st) L = Some l -> sid l = Some s ->
+     stream_is_unidirectional s = stream_is_unidirectional (cid l) /\
+     stream_is_client_initiated s = stream_is_client_initiated (cid l)) /\
+  (forall L1 L2 l1 l2, nth_error (layers st) L1 = Some l1 -> nth_error (layers st) L2 = Some l2 ->
+     cid l1 = cid l2 \/ (exists s, sid l1 = Some s /\ sid l2 = Some s) -> L1 = L2).
+Proof. exact pairing. Qed.
+Print Assumptions C30_pairing.
+
+(* (2) Ids chosen by mitmproxy.  The two bit predicates are bit 0 clear / bit 1 set, and any sequence of
+   get_next_available_stream_id calls (translated source) never fails, returns ids with exactly the
+   requested initiator and direction bits, pairwise distinct, strictly increasing within a class. *)
+Theorem C30_id_bits :
+  forall id, stream_is_client_initiated id = (id mod 2 =? 0) /\ stream_is_unidirectional id = (2 <=? id mod 4).
+Proof. exact (fun id => conj (client_initiated_spec id) (unidirectional_spec id)). Qed.
+Print Assumptions C30_id_bits.
+
+Theorem C30_allocated_ids :
+  forall calls, exists ids final, alloc_seq NEXT_STREAM_ID_INIT calls = Some (ids, final) /\
+    Forall2 bits_ok calls ids /\ NoDup ids /\ ForallOrdPairs fresh_pair ids.
+Proof. exact alloc_seq_correct. Qed.
+Print Assumptions C30_allocated_ids.
+
+(* (3) Every SendQuicStreamData / ResetQuicStream / StopSendingQuicStream ever emitted carries the id
+   that the causing stream layer holds on the addressed side, and that id is registered for it. *)
+Theorem C30_commands_target_paired_id :
+  forall (C : Type) (child_step : C -> connst * connst -> cevent -> C * list ccmd) (new_child : nat -> C) evs,
+  let st := run C child_step new_child evs in
+  forall o to id, In o (outs st) -> targets o to id ->
+  exists L l, nth_error (layers st) L = Some l /\ stream_id l to = Some id /\ dict_get id (ids_of to st) = Some L.
+Proof. exact commands_target_registered_ids. Qed.
+Print Assumptions C30_commands_target_paired_id.
+
+(* (4) Data, end-of-stream and reset signals reach only the paired stream: whatever is emitted while a
+   stream event on (from, id) is handled addresses an id of the one layer that owns (from, id). *)
+Theorem C30_signals_reach_only_paired_stream :
+  forall (C : Type) (child_step : C -> connst * connst -> cevent -> C * list ccmd) (new_child : nat -> C) evs from id k,
+  let st := run C child_step new_child evs in
+  let st' := step C child_step new_child st (SStream from id k) in
+  exists new, outs st' = new ++ outs st /\
+    forall o to id', In o new -> targets o to id' ->
+      exists L l, nth_error (layers st') L = Some l /\ stream_id l from = Some id /\ stream_id l to = Some id'.
+Proof. exact signals_reach_only_paired_stream. Qed.
+Print Assumptions C30_signals_reach_only_paired_stream.
+
+(* (5) After a FIN or a reset was sent on a stream nothing more is written to that stream. *)
+Theorem C30_nothing_after_fin_or_reset :
+  forall (C : Type) (child_step : C -> connst * connst -> cevent -> C * list ccmd) (new_child : nat -> C) evs pre o post to id,
+  rev (outs (run C child_step new_child evs)) = pre ++ o :: post ->
+  ends_stream o to id = true ->
+  forall o', In o' post -> on_stream o' to id = false.
+Proof. exact no_write_after_fin. Qed.
+Print Assumptions C30_nothing_after_fin_or_reset.
+
+(* (6) Stop-sending.  The full statement `every stream event of a peer is relayed` is FALSE of the faithful
+   model and of the code: a QuicStreamStopSending event hits `raise AssertionError(Unexpected stream event)`
+   (finding stop-sending-crash); nothing is emitted for it.  The partial theorem has exactly the complementary
+   guard: without stop-sending events that failure is unreachable, for every child and schedule. *)
+Theorem C30_stop_sending_relayed_refuted :
+  exists evs, err (tcp_run evs) = Some UnexpectedStreamEvent /\
+              err (tcp_run (removelast evs)) = None /\
+              outs (tcp_run evs) = outs (tcp_run (removelast evs)).
+Proof. exact stop_sending_fails. Qed.
+Print Assumptions C30_stop_sending_relayed_refuted.
+
+Theorem C30_stop_sending_partial :
+  forall (C : Type) (child_step : C -> connst * connst -> cevent -> C * list ccmd) (new_child : nat -> C) evs,
+  forallb (fun ev => negb (is_stop ev)) evs = true ->
+  err (run C child_step new_child evs) <> Some UnexpectedStreamEvent.
+Proof. exact stop_sending_only_cause. Qed.
+Print Assumptions C30_stop_sending_partial.
+
+(* non-vacuity: a concrete schedule over three streams (bidirectional client, unidirectional server,
+   reset) with the TCP relay child runs without error, emits paired commands, preserves the reset and
+   drops data that arrives after the client FIN. *)
+Theorem C30_nonvacuous :
+  err (tcp_run demo_evs) = None /\
+  rev (outs (tcp_run demo_evs)) =
+    [OSend 0 Sv 0 [x61] false; OSend 0 Sv 0 [] true; OSend 1 Cl 3 [x62] false; OSend 2 Sv 4 [x63] false;
+     OReset 2 Sv 4 7; OSend 0 Cl 0 [x64] false] /\
+  client_ids (tcp_run demo_evs) = [(0, 0%nat); (3, 1%nat); (4, 2%nat)] /\
+  server_ids (tcp_run demo_evs) = [(0, 0%nat); (3, 1%nat); (4, 2%nat)].
+Proof. exact demo_run. Qed.
+Print Assumptions C30_nonvacuous.
